@@ -93,7 +93,7 @@ PROPS = {
         "assumptions": ["servers unchanged between fetches (the `Env` is fixed)"],
     },
     "C04": {
-        "lean_modules": ["Props.Facts04"],
+        "lean_modules": ["Props.Facts04", "Props.Facts04b"],
         "groups": [{"name": "C04", "quick": 1200, "thorough": 30000, "workers": 8}],
         "rule": "fetches of URLs with hostile paths and queries (raw and encoded CR/LF, spaces, %00, fragments), userinfo, upper-case scheme, non-https schemes, scheme-less references, redirects to plaintext and to CR/LF-carrying Locations, a plaintext canary listener; webfinger lookups with hostile account and domain parts (CR/LF, spaces, '#', '?', userinfo, unresolvable names); "
                 "compared: result and the raw bytes of every connection; non-trivial = at least one connection reached the simulator; distinct by op content",
@@ -133,6 +133,7 @@ PROPS = {
         "assumptions": [],
     },
     "C13": {
+        "lean_modules": ["Props.C13s"],
         "groups": [{"name": "C13", "quick": 6000, "thorough": 200000}],
         "rule": "styled text from a cell grammar (words, runs of all IsSpace kinds, newlines, nested SGR attributes; 1 in 5 a hostile ESC/[/m string) x widths -3..250; "
                 "non-trivial = some input line is longer than the width (wrap/dumbwrap/pad actually act) / more lines than the height (snip) / a styled cell is present (expand); distinct by op content",
@@ -150,6 +151,7 @@ PROPS = {
         "assumptions": ["JSON cannot produce NaN or infinities (encoding/json rejects out-of-range literals)"],
     },
     "C18": {
+        "correspondence_is_failure": {"history": True, "feed": True},
         "groups": [{"name": "C18", "quick": 4000, "thorough": 100000},
                    {"name": "C18x", "quick": 6, "thorough": 9, "workers": 1}],
         "rule": "random history sequences (add/back/forward, length 0..200) and feed sequences (create or create-list, then append/prepend/up/down/center, length 0..30) observed after every step "
@@ -178,6 +180,7 @@ PROPS = {
         "assumptions": ["the hook is non-empty (Config.Safe, C19)"],
     },
     "C15": {
+        "lean_modules": ["Props.C13s"],
         "groups": [{"name": "render", "quick": 2500, "thorough": 60000}],
         "rule": "documents from grammars of HTML (inline styles, links, media, blockquotes, lists, headings, pre, hr, unknown tags, character-reference injections), Markdown, gemtext and plain text with URLs x sequences of 1..4 widths (with repeats and returns to earlier widths; -3..250); the same Markup value is rendered at each width in order; "
                 "non-trivial = the document has links or is rendered at more than one width; distinct by op content",
